@@ -36,7 +36,7 @@ fn model_step(m: &mut Model, data: &[u8]) -> (u8, usize) {
         (1, needed)
     } else if tag == 2 { m.len = 0; (0, 0) } else { m.len = 0; (2, 0) }
 }
-fn check_sequence(bytes: &[u8; N], n1: usize, n2: usize) {
+fn check_sequence(bytes: &[u8; N], n1: usize, n2: usize, check_buffer: bool) {
     let mut r = TlsClientHelloReader::new();
     let mut m = Model { buf: [0u8; 2 * N], len: 0, done: false };
     let mut step = 0;
@@ -50,7 +50,7 @@ fn check_sequence(bytes: &[u8; N], n1: usize, n2: usize) {
             Err(_) => assert!(out == 2),
         }
         assert!(r.signature_parsed() == m.done);
-        assert!(r.buffer_len() == m.len);
+        if check_buffer { assert!(r.buffer_len() == m.len); }
         step += 1;
     }
 }
@@ -61,5 +61,13 @@ fn check_sequence(bytes: &[u8; N], n1: usize, n2: usize) {
 fn c08_reader_cut_3_7() {
     let bytes: [u8; N] = kani::any();
     kani::assume(bytes[3] == 0 && bytes[4] < 6);
-    check_sequence(&bytes, 3, 7);
+    check_sequence(&bytes, 3, 7, false);
+}
+#[kani::proof]
+#[kani::unwind(24)]
+#[kani::stub(crate::tls_process::parse_tls_client_hello, stub_parse)]
+fn c11_reader_cut_3_7_buffer() {
+    let bytes: [u8; N] = kani::any();
+    kani::assume(bytes[3] == 0 && bytes[4] < 6);
+    check_sequence(&bytes, 3, 7, true);
 }
